@@ -21,7 +21,7 @@ CLAIM = dict(
     technique="Lean 4 theorems over a hand-written model + differential correspondence + Lean spec as oracle")
 
 THEOREMS = ["region_word_selects", "single_chip", "add_inv", "insert_all", "compress_ok", "compress_err",
-            "compress_exact", "compress_sorted", "compress_keys", "chipsOf_spec"]
+            "compress_exact", "exact_select_iff", "compress_sorted", "compress_keys", "chipsOf_spec"]
 
 RULE = ("target sets built from shapes: sparse points (whole grid or a small window), aligned full blocks of side "
         "4/16/64 (and 256 in the thorough tier) for a random core set with 0-3 holes (a hole removes some or all cores "
@@ -215,6 +215,28 @@ def impl_region(x, y, level):
 TREE_LIMIT = 2000
 
 
+def queries(c, order):
+    """points at which the literal Lean specification `countSel` is evaluated: a sample of the targets
+    (expected 1) and of non-targets next to them, on the same chips with other cores, mirrored and far
+    away (expected 0); deterministic in the case."""
+    r = random.Random(len(order) * 7919 + c.get("order", 0))
+    tset = {tuple(t) for t in order}
+    sample = order if len(order) <= 120 else r.sample(order, 120)
+    qs = [[x, y, p, 1] for x, y, p in sample]
+    cand = set()
+    for x, y, p in sample[:60]:
+        for dx, dy in ((1, 0), (-1, 0), (0, 1), (0, -1), (4, 0), (0, 16)):
+            cand.add((x + dx, y + dy, p))
+        cand.add((x, y, (p + 1) % 18))
+        cand.add((x, y, r.randrange(32)))
+        cand.add((y, x, p))
+        cand.add((255 - x, 255 - y, p))
+    for _ in range(20):
+        cand.add((r.randrange(256), r.randrange(256), r.randrange(18)))
+    qs += [[x, y, p, 0] for x, y, p in sorted(cand) if (x, y, p) not in tset and 0 <= x < 256 and 0 <= y < 256]
+    return qs
+
+
 def judge(ctx, points_list):
     """oracle verdict keys for several explicit point lists (one driver call)."""
     reqs, outs = [], []
@@ -224,7 +246,8 @@ def judge(ctx, points_list):
         r = impl_compress(targets)
         outs.append(r)
         if "ok" in r:
-            reqs.append({"suite": "c12", "op": "oracle", "targets": sorted(order), "out": r["ok"]})
+            reqs.append({"suite": "c12", "op": "oracle", "targets": sorted(order), "out": r["ok"],
+                         "queries": queries({}, order)})
     reps = iter(ctx.lean(reqs))
     keys = []
     for r in outs:
@@ -232,7 +255,8 @@ def judge(ctx, points_list):
             keys.append({"exception-on-valid-targets"})
         else:
             o = next(reps)
-            keys.append({k for k, bad in (("not-exact", not o["exact"]), ("not-increasing", not o["sorted"])) if bad})
+            keys.append({k for k, bad in (("not-exact", not o["exact"] or bool(o["bad"])),
+                                          ("not-increasing", not o["sorted"])) if bad})
     return keys
 
 
@@ -283,7 +307,8 @@ def eval_cases(ctx, cases):
             reqs.append({"suite": "c12", "op": "tree", "targets": order})
             idx.append((c, "model_tree"))
         if c["_valid"] and "ok" in c["impl"]:
-            reqs.append({"suite": "c12", "op": "oracle", "targets": sorted(order), "out": c["impl"]["ok"]})
+            reqs.append({"suite": "c12", "op": "oracle", "targets": sorted(order), "out": c["impl"]["ok"],
+                         "queries": queries(c, order)})
             idx.append((c, "oracle"))
     for (c, what), r in zip(idx, ctx.lean(reqs)):
         c[what] = r
@@ -331,10 +356,12 @@ def eval_cases(ctx, cases):
                 ctx.tag("several_core_masks")
             nontriv = len(out) >= 2 or any(l < 3 for l in levels)
             o = c["oracle"]
+            if o["exact"] == bool(o["bad"]):
+                ctx.tag("oracle_enumeration_vs_pointwise_differ" if o["exact"] else "oracle_nonexact_sample_missed")
             for key, bad, what in (
-                    ("not-exact", not o["exact"],
+                    ("not-exact", not o["exact"] or bool(o["bad"]),
                      "the emitted pairs do not select exactly the requested cores once each under the documented "
-                     "region word"),
+                     "region word%s" % (" (x, y, p, expected, selected by) = %r" % o["bad"] if o["bad"] else "")),
                     ("not-increasing", not o["sorted"],
                      "the emitted pairs are not in strictly increasing (region, core mask) order")):
                 if not bad:
@@ -368,7 +395,10 @@ def run(ctx):
         "coordinates 0..255 and cores 0..17 (anything else raises ValueError, checked as correspondence only)",
         "semantics of a region word as documented in regions.py / _send_ffcs (written independently in Lean as `selects`); "
         "that SC&MP implements this semantics is trusted",
-        "the insertion order used by the implementation is the iteration order of the targets dict and its sets"]
+        "the insertion order used by the implementation is the iteration order of the targets dict and its sets",
+        "the enumerating oracle exactB (expansion of every word through chipsOf, proved equal to `selects` by "
+        "chipsOf_spec, compared as sorted lists) is not itself proved equivalent to `Exact`; it is cross-checked on "
+        "every case by evaluating the literal `countSel` on sampled targets and non-targets"]
     n = ctx.scale(1500, 24000)
     nreg = ctx.scale(3000, 0)
     if ctx.extended:
